@@ -62,8 +62,8 @@ def mbk (s : State) : List Msg × Nat := (s.mailbox, s.handled)
   · simp
   · rfl
 
-@[simp] theorem mbk_buildNow (s : State) (p : Peer) (id : Id) (ops : List TxOp) :
-    mbk (buildNow s p id ops) = mbk s := by
+@[simp] theorem mbk_buildNow (s : State) (party : Party) (p : Peer) (id : Id) (ops : List TxOp) :
+    mbk (buildNow s party p id ops) = mbk s := by
   unfold buildNow; simp only; split
   · split
     · simp
@@ -249,8 +249,18 @@ theorem mbk_handle (s : State) (m : Msg) : mbk (handle s m) = mbk s := by
   | startTask w => exact mbk_startTask s w
   | getUpdates w => exact mbk_getUpdates s w
   | finishTask w err => exact mbk_finishTask s w err
-  | closeNetErr id pub => show mbk (clearPubWait (abortRequest s id .network).1 pub) = _; simp
-  | terminate id pub => show mbk (clearPubWait (terminate s id) pub) = _; simp
+  | closeNetErr id inc pub =>
+    rw [handle_closeNetErr]
+    split
+    · split
+      · show mbk (clearPubWait (abortRequest s id .network).1 pub) = _; simp
+      · show mbk (setMQ _ _) = _; simp [clearPubWait]
+    · show mbk (setMQ _ _) = _; simp [clearPubWait]
+  | terminate id inc pub =>
+    rw [handle_terminate]
+    split
+    · show mbk (clearPubWait (terminate s id) pub) = _; simp
+    · show mbk (clearPubWait s pub) = _; simp
 
 -- ------------------------------------------------------------------ processes that only append
 /-- `handled` unchanged, mailbox extended by messages without manager-side extension data -/
@@ -418,8 +428,8 @@ theorem mbg_pubStep {s s' : State} {p : Peer} (h : pubStep s p = some s') : MbGr
       · cases h; exact mbg_of_eq rfl
       · cases h; exact mbg_of_eq (by simp)
       · cases h; exact mbg_of_eq (by simp)
-      · cases h; exact mbg_trans (mbg_of_eq (mbk_setMQ s _)) (mbg_sendMsg _ (Msg.closeNetErr _ p) rfl)
-      · cases h; exact mbg_trans (mbg_of_eq (mbk_setMQ s _)) (mbg_sendMsg _ (Msg.terminate _ p) rfl)
+      · cases h; exact mbg_trans (mbg_of_eq (mbk_setMQ s _)) (mbg_sendMsg _ (Msg.closeNetErr _ _ p) rfl)
+      · cases h; exact mbg_trans (mbg_of_eq (mbk_setMQ s _)) (mbg_sendMsg _ (Msg.terminate _ _ p) rfl)
 
 theorem mbg_popTask {s s' : State} {p : Peer} {id : Id} (h : popTask s p id = some s') : MbGrow s s' := by
   unfold popTask at h
